@@ -276,6 +276,39 @@ impl Recorder {
         });
     }
 
+    /// Merge the result of a parallel shard.
+    pub fn absorb(&mut self, o: Recorder) {
+        self.evaluations += o.evaluations;
+        self.nontrivial.extend(o.nontrivial);
+        for (k, v) in o.classes {
+            *self.classes.entry(k).or_insert(0) += v;
+        }
+        for (k, v) in o.counters {
+            *self.counters.entry(k).or_insert(0) += v;
+        }
+        for (k, v) in o.known_hits {
+            *self.known_hits.entry(k).or_insert(0) += v;
+        }
+        for s in o.samples {
+            if self.samples.len() < 16 {
+                self.samples.push(s);
+            }
+        }
+        self.violations.extend(o.violations);
+        for n in o.notes {
+            if !self.notes.contains(&n) {
+                self.notes.push(n);
+            }
+        }
+        for n in o.assumptions {
+            if !self.assumptions.contains(&n) {
+                self.assumptions.push(n);
+            }
+        }
+        self.inconclusive.extend(o.inconclusive);
+        self.exhaustive_parts.extend(o.exhaustive_parts);
+    }
+
     pub fn to_json(&self) -> Value {
         json!({
             "property": self.property,
@@ -419,3 +452,4 @@ pub fn arg_value(name: &str) -> Option<String> {
 pub fn has_flag(name: &str) -> bool {
     std::env::args().any(|a| a == name)
 }
+pub mod decoders;
